@@ -167,7 +167,7 @@ func runTab(ops []op, tags map[string]bool) {
 
 func tagString(tags map[string]bool) string {
 	var l []string
-	for _, k := range []string{"back", "span", "shrinkonly", "shrink", "mb", "inv", "missing", "margin", "blank", "emptyrow", "bs", "big"} {
+	for _, k := range []string{"wide", "back", "span", "shrinkonly", "shrink", "mb", "inv", "missing", "margin", "blank", "emptyrow", "bs", "big"} {
 		if tags[k] {
 			l = append(l, k)
 		}
@@ -308,6 +308,15 @@ func genTable(r *hx.Rand, maxRows, maxCols int) ([]op, map[string]bool) {
 			ops[i].n = r.Intn(ops[i].n)
 		}
 	}
+	// rarely: the same table with every column but the first 255 columns further right
+	if r.Chance(1, 40) {
+		tags["wide"] = true
+		for i := range ops {
+			if (ops[i].kind == 'c' || ops[i].kind == 'k') && ops[i].n >= 1 {
+				ops[i].n += 255
+			}
+		}
+	}
 	// shrink marks may come anywhere in the call sequence: move them to the front sometimes
 	if r.Chance(1, 3) {
 		var ks, rest []op
@@ -409,6 +418,14 @@ func tabCases(r *hx.Rand) {
 		map[string]bool{"margin": true})
 	runTab([]op{{kind: 'r'}, {kind: 's', n: 1, val: "abcdef"}, {kind: 'r'}, {kind: 's', n: 1, val: "", opts: []string{"C", "M|"}}},
 		map[string]bool{"margin": true})
+	// C16-V: column indices and spans above 255 (benchstat reaches layout column 256 with 42 inputs)
+	runTab([]op{{kind: 'r'}, {kind: 's', n: 1, val: "a"}, {kind: 'c', n: 256}, {kind: 's', n: 1, val: "b"}, {kind: 'c', n: 300}, {kind: 's', n: 1, val: "cc", opts: []string{"R"}},
+		{kind: 'r'}, {kind: 's', n: 1, val: "x"}, {kind: 'c', n: 256}, {kind: 's', n: 1, val: "yyy"}, {kind: 'c', n: 300}, {kind: 's', n: 1, val: "z", opts: []string{"R"}}},
+		map[string]bool{"wide": true, "missing": true})
+	runTab([]op{{kind: 'r'}, {kind: 'c', n: 1}, {kind: 's', n: 260, val: "a header over 260 columns", opts: []string{"C", "M │ "}}, {kind: 'c', n: 261}, {kind: 's', n: 1, val: "", opts: []string{"M │"}},
+		{kind: 'r'}, {kind: 's', n: 1, val: "row"}, {kind: 'c', n: 5}, {kind: 's', n: 1, val: "v", opts: []string{"R"}}, {kind: 'c', n: 258}, {kind: 's', n: 1, val: "w", opts: []string{"R"}},
+		{kind: 'k', n: 257, b: true}, {kind: 'k', n: 6, b: true}},
+		map[string]bool{"wide": true, "span": true, "shrink": true, "margin": true})
 	// moving to an earlier column panics
 	runTab([]op{{kind: 'r'}, {kind: 'c', n: 3}, {kind: 's', n: 1, val: "a"}, {kind: 'c', n: 1}}, map[string]bool{"missing": true, "back": true})
 	// … because otherwise a later cell can be put on top of an earlier one
@@ -1146,7 +1163,7 @@ func tagList(tags map[string]bool, order []string) string {
 	return strings.Join(tl, "+")
 }
 
-var e2eTags = []string{"emptykey", "cfggroup", "warn30", "colsets", "widehdr", "numtie", "zero", "compare", "nodelta", "missing", "tables", "levels2", "levels3", "levels4", "levels5", "multirow", "units", "warn"}
+var e2eTags = []string{"wide", "tie", "emptykey", "cfggroup", "warn30", "colsets", "widehdr", "numtie", "zero", "compare", "nodelta", "missing", "tables", "levels2", "levels3", "levels4", "levels5", "multirow", "units", "warn"}
 
 func runScenario(sc scenario) {
 	myid := id
@@ -1259,6 +1276,37 @@ func e2eCases(r *hx.Rand) {
 		os.WriteFile(filepath.Join(dir, "exact-b.txt"), []byte(b.String()), 0o666)
 		runScenario(scenario{[]string{"old=" + filepath.Join(dir, "exact-a.txt"), "new=" + filepath.Join(dir, "exact-b.txt")}, ".fullname", ".file",
 			map[string]bool{"compare": true, "warn30": true}})
+	}
+	// C16-V: many inputs — benchstat uses six layout columns per input, column 256 is reached with 42
+	wides := []int{44}
+	if hx.Tier() == "thorough" {
+		wides = []int{42, 43, 44, 50, 90}
+	}
+	for _, nin := range wides {
+		var paths []string
+		for f := 0; f < nin; f++ {
+			p := filepath.Join(dir, fmt.Sprintf("w%02d.txt", f))
+			os.WriteFile(p, []byte(fmt.Sprintf("BenchmarkA-8 1 %d ns/op\nBenchmarkB-8 1 %d ns/op\n", 100+f, 2000+3*f)), 0o666)
+			paths = append(paths, fmt.Sprintf("i%02d=%s", f, p))
+		}
+		runScenario(scenario{paths, ".fullname", ".file", map[string]bool{"wide": true, "compare": true}})
+	}
+	// C16-U: geomean (and per-row) deltas that sit on two-decimal ties: old 200000, new 200000+10k
+	ks := []int{13, 19, 21, 31}
+	for len(ks) < hx.N(14, 60) {
+		ks = append(ks, 1+r.Intn(60))
+	}
+	if hx.Tier() == "thorough" {
+		ks = nil
+		for k := 1; k <= 60; k++ {
+			ks = append(ks, k)
+		}
+	}
+	for _, k := range ks {
+		os.WriteFile(filepath.Join(dir, "t-old.txt"), []byte("BenchmarkA-8 1 200000 ns/op\nBenchmarkB-8 1 200000 ns/op\n"), 0o666)
+		os.WriteFile(filepath.Join(dir, "t-new.txt"), []byte(fmt.Sprintf("BenchmarkA-8 1 %d ns/op\nBenchmarkB-8 1 %d ns/op\n", 200000+10*k, 200000+10*k)), 0o666)
+		runScenario(scenario{[]string{"old=" + filepath.Join(dir, "t-old.txt"), "new=" + filepath.Join(dir, "t-new.txt")}, ".fullname", ".file",
+			map[string]bool{"tie": true, "compare": true}})
 	}
 	// C16-S: a table key whose value is EMPTY for some tables: a file key present in one file only
 	// (both file orders), a sub-name table key absent from some names
